@@ -4,7 +4,7 @@ Helper lemmas for C06: pdfminer's `name2unicode` (model) against AGL section 2 (
 import PdfVerif.Spec.SimpleFont
 
 namespace PdfVerif.SimpleFont
-open PdfVerif PdfVerif.SimpleFont.Spec
+open PdfVerif PdfVerif.SimpleFont.Spec PdfVerif.Gen.FontCode
 
 /-- What the theorems need to know about a glyph list: no entry has an empty value. -/
 def GlyphListOK (gl : GlyphList) : Prop := ∀ e ∈ gl, e.2 ≠ []
@@ -22,7 +22,7 @@ theorem glLookup_ne_nil {gl : GlyphList} (h : GlyphListOK gl) {c : Name} {t : Te
 /-! ### digits -/
 
 theorem validUnicode_eq_isScalar (v : Nat) : validUnicode v = isScalar v := by
-  unfold validUnicode isScalar
+  unfold validUnicode invalidUnicode isScalar
   by_cases h1 : v ≤ 0xD7FF
   · have : ¬ (55295 < v) := by omega
     have h3 : ¬ (v > 0x10FFFF) := by omega
@@ -141,8 +141,8 @@ theorem beq_char_comm (a b : Char) : (a == b) = (b == a) := by
   · have h' : ¬ b = a := fun e => h e.symm
     rw [beq_eq_false_iff_ne.mpr h, beq_eq_false_iff_ne.mpr h']
 
-theorem isPrefixOf_uni (c : Name) : uniPrefix.isPrefixOf c = decide (c.take 3 = ['u', 'n', 'i']) := by
-  unfold uniPrefix
+theorem isPrefixOf_uni (c : Name) : UNI_PREFIX.isPrefixOf c = decide (c.take 3 = ['u', 'n', 'i']) := by
+  unfold UNI_PREFIX
   match c with
   | [] => simp [List.isPrefixOf]
   | [a] => simp [List.isPrefixOf]
@@ -152,7 +152,8 @@ theorem isPrefixOf_uni (c : Name) : uniPrefix.isPrefixOf c = decide (c.take 3 = 
       beq_char_comm 'i']
     by_cases h1 : a = 'u' <;> by_cases h2 : b = 'n' <;> by_cases h3 : d = 'i' <;> simp [h1, h2, h3]
 
-theorem isPrefixOf_u (c : Name) : ['u'].isPrefixOf c = decide (c.take 1 = ['u']) := by
+theorem isPrefixOf_u (c : Name) : U_PREFIX.isPrefixOf c = decide (c.take 1 = ['u']) := by
+  unfold U_PREFIX
   match c with
   | [] => simp [List.isPrefixOf]
   | a :: r =>
@@ -182,7 +183,9 @@ theorem comp_eq {gl : GlyphList} (hgl : GlyphListOK gl) (c : Name) (hl : lenient
   | none =>
     simp only [lenientComp, hlook, Option.isNone_none, Bool.true_and, Bool.or_eq_false_iff] at hl
     obtain ⟨hl1, hl2⟩ := hl
-    simp only [isPrefixOf_uni, isPrefixOf_u]
+    have e3 : UNI_PREFIX.length = 3 := rfl
+    have e1 : U_PREFIX.length = 1 := rfl
+    simp only [isPrefixOf_uni, isPrefixOf_u, e3, e1, UNI_GROUP, U_MIN, U_MAX]
     by_cases huni : c.take 3 = ['u', 'n', 'i']
     · -- "uni" + digits
       have hl1' : (allHex (c.drop 3) && hasLowerHex (c.drop 3)) = false := by simpa [huni] using hl1
@@ -271,7 +274,7 @@ theorem beforeDot_eq_dropSuffix : ∀ (n : Name), beforeDot n = dropSuffix n
   | [] => rfl
   | c :: cs => by
     unfold beforeDot dropSuffix
-    simp only [List.takeWhile_cons]
+    simp only [List.takeWhile_cons, SUFFIX_SEP]
     by_cases h : c = '.'
     · subst h; simp
     · have h1 : (c != '.') = true := by simp [h]
@@ -279,6 +282,7 @@ theorem beforeDot_eq_dropSuffix : ∀ (n : Name), beforeDot n = dropSuffix n
       simp only [h1, h2, if_true, Bool.false_eq_true, if_false]
       have := beforeDot_eq_dropSuffix cs
       unfold beforeDot at this
+      simp only [SUFFIX_SEP] at this
       rw [this]
 
 theorem splitOn_ne_nil (sep : Char) : ∀ (s : List Char), splitOn sep s ≠ []
@@ -403,7 +407,7 @@ theorem name2unicode_eq_aglText {gl : GlyphList} (hgl : GlyphListOK gl) (nm : Op
       have := List.any_eq_false.mp hlen c hc
       simpa using this
     rw [aglText_some]
-    simp only [name2unicode, beforeDot_eq_dropSuffix]
+    simp only [name2unicode, beforeDot_eq_dropSuffix, COMPONENT_SEP]
     exact name_core _ _ (splitOn_ne_nil _ _) (splitOn_single _ _) hshape hcomp
 
 /-! ### the grammar is inside the judged domain -/
@@ -542,7 +546,7 @@ theorem splitOn_plain : ∀ (n : Name), plainName n = true → splitOn '_' n = [
 
 theorem name2unicode_plain (gl : GlyphList) (n : Name) (hp : plainName n = true) :
     name2unicode gl (some n) = comp gl n := by
-  simp [name2unicode, beforeDot_eq_dropSuffix, dropSuffix_plain n hp, splitOn_plain n hp]
+  simp [name2unicode, beforeDot_eq_dropSuffix, COMPONENT_SEP, dropSuffix_plain n hp, splitOn_plain n hp]
 
 theorem comp_of_lookup {gl : GlyphList} {n : Name} {t : Text} (h : glLookup gl n = some t) :
     comp gl n = some t := by
